@@ -166,6 +166,10 @@ func replayStreamPath(p streamPath, maxBuf int) (res replayResult) {
 			return fail(i, "infra", "", "unknown action %q", st.Act)
 		}
 		if err != nil {
+			if err == errStepTimeout {
+				// every other actor is parked outside the lock regions: the real code is blocked
+				return fail(i, "blocked", "blocked", "%s(%d): the real code neither returned nor reached its next lock region within 30 s", st.Act, st.ID)
+			}
 			return fail(i, "infra", "", "%s(%d): %v", st.Act, st.ID, err)
 		}
 		if n.panic != nil {
